@@ -20,7 +20,7 @@ import threading
 
 from ..sexp import Sym
 
-LOCK_TIMEOUT = 20.0
+LOCK_TIMEOUT = 5.0
 STEP_TIMEOUT = 20.0
 
 
@@ -269,8 +269,10 @@ class Session:
             _left_recursion_enabled=PE._left_recursion_enabled,
         )
         set_mode(pp, self.mode)
-        self.P = LockWrap(self, "P", PE.packrat_cache_lock)
-        self.R = LockWrap(self, "R", PE.recursion_lock)
+        # a fresh lock object of the same type per session: a lock leaked by an earlier case (possible only
+        # if the code under test forgets a release) must not block later cases
+        self.P = LockWrap(self, "P", type(PE.packrat_cache_lock)())
+        self.R = LockWrap(self, "R", type(PE.recursion_lock)())
         self.C = CacheWrap(self, PE.packrat_cache)
         self.M = MemoWrap(self, PE.recursion_memos)
         PE.packrat_cache_lock, PE.recursion_lock = self.P, self.R
@@ -343,8 +345,6 @@ class Session:
     def _tracer(self, frame, event, arg):
         code = frame.f_code
         if code in self.fine_codes:
-            if code in self.opcode_codes:
-                frame.f_trace_opcodes = True
             return self._local
         return None
 
